@@ -52,9 +52,9 @@ var ftSpentHours float64
 
 // drawPause draws a real pause for the virtual-clock groups.
 func drawPause(r *mon.Rand) time.Duration {
-	ms := r.Pick(1, 20, 500, 999, 1000, 1001, 1999, 2001, 3000, 5001, 10_000, 30_001, 61_000, 600_000, 3_600_001)
+	ms := int64(r.Pick(1, 20, 500, 999, 1000, 1001, 1999, 2001, 3000, 5001, 10_000, 30_001, 61_000, 600_000, 3_600_001))
 	if r.P(1, 40) && ftSpentHours < 60*365*24 {
-		ms = r.Pick(90_000_000, 1<<31+5, 1<<32+7)
+		ms = []int64{90_000_000, 1<<31 + 5, 1<<32 + 7}[r.Intn(3)]
 	}
 	return time.Duration(ms) * time.Millisecond
 }
